@@ -101,8 +101,10 @@ Print Assumptions c06_bracket_keeps_sign_change.
 (* PARTIAL converse: at the loop exit the bracket has been halved once per non-exact body, holds a
    root z of the continuous target, the candidate is within (hi-lo)/2^iter of z, is a root on the
    `exact` exit, and (after repair 8dfb6bc) on the tolerance exit is non-zero with z within tol
-   percent of it.  MISSING: that for a moderately scaled target and an ample budget the loop
-   leaves before the cap; that depends on the float stopping rule and is checked by the oracle only. *)
+   percent of it.  The converse itself is proved below for a bracket that stays away from the origin
+   (c06_finds_root_away_from_zero).  STILL LEFT TO THE ORACLE: only the case of a root at 0 / a bracket
+   containing 0, where the relative step never becomes small in exact arithmetic and the exit needs
+   floating-point underflow (about 1100 halvings), plus the loose-tolerance class F-C06-LOOSE-TOL. *)
 Theorem c06_finds_root_partial : forall (g : R -> R) lo init hi tol cap r,
   continuity g -> lo <= hi -> g lo * g hi <= 0 ->
   bis_loop (fun x => Ok (g x)) tol cap cap (bis_start {| b_lower := lo; b_init := init; b_upper := hi |}) = Ok r ->
@@ -146,6 +148,33 @@ Check c06_exit_before_cap_is_ok : forall (g : R -> R) lo init hi tol cap r L X,
   bisection (fun x => Ok (g x)) {| b_lower := lo; b_init := init; b_upper := hi |} tol cap = Ok (bs_x r).
 Print Assumptions c06_exit_before_cap_is_ok.
 
+(* THE CONVERSE in exact arithmetic for a bracket away from the origin: continuous L-Lipschitz target with a weak
+   sign change, init inside, |x| in [m, X] on the bracket with m > 0, tolerance tight enough for the gate
+   (L * tol% * X < 1e-4, the complement of F-C06-LOOSE-TOL) and a budget cap > K >= 1 with
+   100 (hi - lo) < tol * m * 2^K: the solver returns Ok x, x in the bracket, |g x| < 1e-4, and a root z of g
+   lies within tol percent of x (or x is a root).  The loop cannot run past iteration K because the relative
+   step is at most 100 (hi-lo) / (2^(k+1) m) after k halvings. *)
+Theorem c06_finds_root_away_from_zero : forall (g : R -> R) lo init hi tol cap L X m K,
+  continuity g -> lo <= init <= hi -> g lo * g hi <= 0 -> 0 < tol ->
+  0 <= L -> (forall a b, lo <= a <= hi -> lo <= b <= hi -> Rabs (g a - g b) <= L * Rabs (a - b)) ->
+  (forall x, lo <= x <= hi -> Rabs x <= X) -> L * (tol / 100 * X) < 1 / 10000 ->
+  0 < m -> (forall x, lo <= x <= hi -> m <= Rabs x) ->
+  (1 <= K < cap)%nat -> 100 * (hi - lo) < tol * m * 2 ^ K ->
+  exists x, bisection (fun x => Ok (g x)) {| b_lower := lo; b_init := init; b_upper := hi |} tol cap = Ok x /\
+            lo <= x <= hi /\ Rabs (g x) < 1 / 10000 /\
+            exists z, g z = 0 /\ lo <= z <= hi /\ (g x = 0 \/ Rabs (x - z) * 100 < tol * Rabs x).
+Proof. exact Proofs.Bisect.c06_finds_root_away_from_zero. Qed.
+Check c06_finds_root_away_from_zero : forall (g : R -> R) lo init hi tol cap L X m K,
+  continuity g -> lo <= init <= hi -> g lo * g hi <= 0 -> 0 < tol ->
+  0 <= L -> (forall a b, lo <= a <= hi -> lo <= b <= hi -> Rabs (g a - g b) <= L * Rabs (a - b)) ->
+  (forall x, lo <= x <= hi -> Rabs x <= X) -> L * (tol / 100 * X) < 1 / 10000 ->
+  0 < m -> (forall x, lo <= x <= hi -> m <= Rabs x) ->
+  (1 <= K < cap)%nat -> 100 * (hi - lo) < tol * m * 2 ^ K ->
+  exists x, bisection (fun x => Ok (g x)) {| b_lower := lo; b_init := init; b_upper := hi |} tol cap = Ok x /\
+            lo <= x <= hi /\ Rabs (g x) < 1 / 10000 /\
+            exists z, g z = 0 /\ lo <= z <= hi /\ (g x = 0 \/ Rabs (x - z) * 100 < tol * Rabs x).
+Print Assumptions c06_finds_root_away_from_zero.
+
 (* after repair e42ded6: a root at the lower end is returned *)
 Theorem c06_root_at_lower_end : forall (f : R -> res R) lo init hi tol cap vm,
   lo <= init <= hi -> f lo = Ok 0 -> f ((lo + hi) / 2) = Ok vm -> (0 < cap)%nat ->
@@ -175,3 +204,10 @@ Proof. exact Proofs.Bisect.c06_example_lower_end. Qed.
 (* the hypotheses of c06_finds_root_partial are met by every polynomial with a sign change *)
 Example c06_nonvacuous_continuity : continuity (eval_simple px2m4) /\ eval_simple px2m4 0 * eval_simple px2m4 3 <= 0.
 Proof. split; [apply Proofs.Bisect.eval_simple_continuity|]. rewrite !Proofs.Bisect.px2m4_eval. lra. Qed.
+
+(* the hypotheses of c06_finds_root_away_from_zero are satisfiable: x^2 - 4 on [1, 3], init 2, tol 1e-4 (percent),
+   cap 100 with L = 6, X = 3, m = 1, K = 21 - the solver returns a value *)
+Example c06_nonvacuous_away_from_zero :
+  exists x, bisection (s_eval_univariate px2m4) {| b_lower := 1; b_init := 2; b_upper := 3 |} (1 / 10000) 100 = Ok x /\
+            1 <= x <= 3 /\ Rabs (eval_simple px2m4 x) < 1 / 10000.
+Proof. exact Proofs.Bisect.c06_example_away_from_zero. Qed.
